@@ -173,6 +173,7 @@ _ADDED = {
     'C04': ' Also decided: the pipeline leaves the band-amplitude filter at its documented three cycles (BAND-WIRING) and the table utilities never write through a returned table (TABLE-INTACT); rename_extrema_df called on its own performs the documented swap / negation / 1-x conversion with and without sample columns (RENAME-DEF).',
     'C09': ' Also decided: return_samples changes no argument of any feature / label computation (RS-LATE).',
     'C10': ' Unit signatures follow the positional normal form of neurodsp calls; rounding or quantising a V-valued term counts as an absolute level.',
+    'C12': ' Also decided: the number of epoch tables is a function of (sig_len, epoch_len) alone, so the second dimension of the nested list does not depend on the data (EPOCH-COUNT); Bycycle.load rejects no table epoch_df can produce (LOAD-ACCEPTS: a sample bound must not fire at sample == len(sig)).',
     'C13': ' Also decided: the per-epoch option list is consumed on a deep copy (COPY-FIRST) and read without pop, because deepcopy keeps list positions that name one dict as one object (EPOCH-OWN-OPTIONS).',
     'C14': ' Also decided: constructor defaults equal compute_features defaults (DEFAULT-AGREE); BycycleGroup.recompute_edges recomputes every member and refreshes the group tables (GROUP-RECOMPUTE); the members a group lowers thresholds on hold the group\'s own thresholds dictionary, so an edit after a fit reaches them (SETTINGS-SHARED); a method that returns early leaves the stored state as it was on that path (heap stores after an early return are conditional), so a skipped recomputation shows in RECOMPUTE.',
     'C15': ' Also decided: no result is collected in worker-completion order (NO-SCHEDULE: imap_unordered / as_completed, called or merely referenced).',
